@@ -1,0 +1,33 @@
+//! Hooks for the verification harness in /verif. Compiled only with the off-by-default `verif`
+//! feature. The only behaviour it can change is the order in which
+//! [Portfolio::get_positions](crate::broker::Portfolio::get_positions) lists the holdings map's
+//! keys, and only towards another order that the underlying `HashMap` could itself have produced.
+use std::cell::Cell;
+
+thread_local! {
+    static POSITIONS_SEED: Cell<Option<u64>> = const { Cell::new(None) };
+}
+
+/// Install (Some) or remove (None) the positions scheduler for the current thread.
+pub fn set_positions_seed(seed: Option<u64>) {
+    POSITIONS_SEED.with(|s| s.set(seed));
+}
+
+fn keyed_hash(seed: u64, key: &str) -> u64 {
+    let mut h = seed ^ 0xcbf2_9ce4_8422_2325;
+    for b in key.as_bytes() {
+        h ^= *b as u64;
+        h = h.wrapping_mul(0x0000_0100_0000_01b3);
+    }
+    h ^= h >> 29;
+    h = h.wrapping_mul(0xbf58_476d_1ce4_e5b9);
+    h ^= h >> 32;
+    h
+}
+
+/// When a scheduler is installed returns the keys in the order it dictates, otherwise None.
+pub fn order_positions(mut keys: Vec<String>) -> Option<Vec<String>> {
+    let seed = POSITIONS_SEED.with(|s| s.get())?;
+    keys.sort_by(|a, b| (keyed_hash(seed, a), a).cmp(&(keyed_hash(seed, b), b)));
+    Some(keys)
+}
